@@ -3,6 +3,7 @@ from vlib.core import Outcome
 from vlib.runner import Campaign
 
 from . import _group_sim as GS
+from . import _consumer_sim as CSIM
 
 ID = "C06"
 LEVEL = "exploration"
@@ -72,6 +73,8 @@ def group_checks(case, obs, out):
             excused = any(tw - 1e-9 <= f[0] <= t1 + 1e-9 for f in c.fault_log) or \
                 any(tw - 1e-9 <= e["t"] <= t1 + 1e-9 for e in sub_changes) or \
                 any(tw - 1e-9 <= t <= t1 + 1e-9 for t in md_changes) or \
+                any(x.api in ("offset_commit", "heartbeat") and x.t_end is not None and tw - 1e-9 <= x.t_end <= t1 + 1e-9
+                    and CSIM._reply_has_error(x.reply) for x in arrs) or \
                 any(e["kind"] == "killed" and e["member"] == tag for e in obs.events) or \
                 any(e["kind"] == "stop_call" and e["member"] == tag and e["t"] <= t1 + 1e-9 for e in obs.events)
             # metadata changes (partition counts / topics) between reply and next request
